@@ -263,6 +263,16 @@ def install(w):
                 return r
             raise Unsupported("getattr with a non-literal name")
         if len(args) == 2:
+            if isinstance(obj, VObj) and isinstance(obj.cls, type) and not it.st.spec:
+                # dispatch by computed name: a name that is neither a class attribute, nor an
+                # annotated / declared instance field of the class does not exist
+                cls = obj.cls
+                known = any(name.lit in k.__dict__ or name.lit in getattr(k, "__annotations__", {})
+                            for k in cls.__mro__)
+                if not known and w.field_spec(cls, name.lit) is None \
+                        and (obj.oid, name.lit) not in it.st.heap:
+                    it.note_safe("SAFE-Attr", _src(node), getattr(node, "lineno", 0))
+                    it.throw(AttributeError, node, "SAFE-Attr")
             return it.getattr(obj, name.lit, node)
         try:
             return it.getattr(obj, name.lit, node)
